@@ -78,6 +78,14 @@ def unit_history_sweep():
     def run(ctx):
         from cutplace import interface
         fresh_outcome = {(t, op): run_op(interface.create_cid_from_string(t), op) for op in OPS for t in (CID_TEXT, FIXED_CID_TEXT)}
+        # the comparison below is between two runs of the same code; a few outcomes on a fresh CID are pinned as well, so that a change that breaks a run everywhere does not go unnoticed
+        # (rows fed directly: kinds a, b, d of the three accepted rows, so 'kind < 3' fails at the end)
+        PINNED = {"rows_fed_directly": ("ok", ["ok", "ok", "rejected:values for ['id'] must be uniq", "ok", "end:distinct count is 3 but check "]), "nothing_fed": ("ok", "closed"), "read_clean": ("ok", [["1", "a"], ["2", "b"]])}
+        def pin_check(op):
+            got = fresh_outcome[(CID_TEXT, op)]
+            return None if got == PINNED[op] else {"expected": repr(PINNED[op]), "observed": repr(got)}
+        pinned = sweep("C08/history/outcomes of single runs on a fresh CID", sorted(PINNED), pin_check, "bounded", "3 operations with their expected outcome (rows fed directly: the duplicate id is rejected, every other row accepted, the end-of-data check sees the three kinds of the accepted rows)",
+                       describe=lambda o: {"operation": o}, function="validio on a fresh Cid", unit="C08.history", props=["C08", "C05", "C20"])
         def cases():
             for n in (1, 2):
                 for seq in itertools.product(OPS, repeat=n): yield ("FIXED",) + seq
@@ -138,7 +146,7 @@ def unit_history_sweep():
             kind, got, want = k11[0]
             extra.append(Result("C08/K-11 witness: runs overlapping on one CID object share the state of its checks (%s)" % ", ".join(k[0] for k in k11), "bounded", FAILED, "native", finding="K-11", cases=len(k11), props=["C08", "C05", "C14"],
                                 detail=repr(got)[:300], replay={"verdict": "confirmed", "input": {"shape": kind}, "expected": repr(want), "observed": repr(got)}))
-        return extra + [sweep("C08/history/every run equals the same run on a fresh CID", cases(), check, "bounded",
+        return extra + [pinned] + [sweep("C08/history/every run equals the same run on a fresh CID", cases(), check, "bounded",
                       "all sequences of 1-3 operations and every 9th sequence of 4 (all of them + 2000 random sequences of 5-9 in thorough) over %s on one CID object with IsUnique and DistinctCount checks (delimited; sequences of 1-2 also on a fixed-format CID)" % OPS,
                       describe=lambda s: {"operations": list(s)}, function="validio.rows / Reader / Writer on one Cid", unit="C08.history")]
     return NativeUnit("C08.history", "bounded exploration of operation histories on one CID object", ["C08"], run, kind="bounded")
